@@ -11,6 +11,7 @@ import (
 	"encoding/binary"
 	"fmt"
 	"io"
+	"os"
 	"strconv"
 	"strings"
 	"testing"
@@ -593,6 +594,15 @@ func c18AgDiff(a, b *AgMessage) (string, string) {
 func c18AgRunB(c c18AgB, v *vlib.Verdict) {
 	enc, fields, intent := c18AgBase(c)
 	in := wire.Mutate(enc, fields, c.Muts, 0)
+	if len(c.Muts) != 0 {
+		intent = nil
+	}
+	c18AgBytesB(in, intent, v)
+}
+
+// c18AgBytesB is the decode -> encode -> decode oracle on raw bytes. intent,
+// when not nil, is the value the bytes were built from by hand (unmutated).
+func c18AgBytesB(in []byte, intent *Intent, v *vlib.Verdict) {
 	st := &wire.Stream{Data: in}
 	var val AgMessage
 	var err error
@@ -600,7 +610,7 @@ func c18AgRunB(c c18AgB, v *vlib.Verdict) {
 		v.Label("decoder-panicked")
 		return
 	}
-	if len(c.Muts) == 0 && intent != nil {
+	if intent != nil {
 		// self-check of the hand-built encoding against the real reader
 		if err != nil {
 			v.Failf("C18:decode-rejects-valid-encoding:authgrants.AgMessage", "ReadFrom rejects a hand-built valid intent message (grant %d): %v", intent.GrantType, err)
@@ -676,6 +686,12 @@ func c18AgBGen(t *rapid.T) c18AgB {
 	}
 	if rapid.Bool().Draw(t, "trailing") {
 		c.Muts = append(c.Muts, wire.Mut{Op: 2, A: rapid.Uint64().Draw(t, "tseed"), B: rapid.SampledFrom([]int{1, 2, 64, 300}).Draw(t, "tn")})
+	}
+	if c.Deny < 0 && rapid.IntRange(0, 2).Draw(t, "aimed") == 0 {
+		// edits that readers are known to tolerate (field order of c18HandEncodeIntent): a TargetSNI or certificate-name
+		// block size larger than its label needs, non-zero reserved bytes of the certificate, a chunk length one short
+		aim := rapid.SampledFrom([][2]int{{2, 3}, {2, 4}, {8, 3}, {8, 5}, {9, 2}, {11, 3}, {11, 4}}).Draw(t, "aim")
+		c.Muts = append(c.Muts, wire.Mut{Op: 0, A: uint64(aim[0]), B: aim[1]})
 	}
 	c.Muts = append(c.Muts, wire.GenMuts(t, 0, 3)...)
 	return c
@@ -851,4 +867,25 @@ func TestVerifC18ProxyMessages(t *testing.T) {
 		}
 		return c
 	}})
+}
+
+// FuzzVerifC18AgMessage: native fuzzing of the decode -> encode -> decode oracle
+// (only does work when VERIF_FUZZ is set; thorough tier).
+func FuzzVerifC18AgMessage(f *testing.F) {
+	if os.Getenv("VERIF_FUZZ") == "" {
+		f.Skip("native fuzzing runs in the thorough tier only")
+	}
+	for k := 0; k < 3; k++ {
+		enc, _, _ := c18AgBase(c11dAgSweepBase(k))
+		f.Add(enc)
+	}
+	f.Fuzz(func(t *testing.T, in []byte) {
+		var v vlib.Verdict
+		c18AgBytesB(in, nil, &v)
+		for _, vi := range v.Violations {
+			if !vlib.KnownOpen(vi.Sig) {
+				t.Fatalf("VERIF-VIOLATION sig=%s detail=%s", vi.Sig, vi.Detail)
+			}
+		}
+	})
 }
